@@ -133,6 +133,17 @@ def lc_broken_bigargs(rng):
         except Exception:
             pass
     e.shutdown(wait=True)
+def lc_bad_initargs(rng):
+    # a worker cannot be started: its initargs do not pickle (the spawn fails half-way, after the queues were reduced)
+    from loky import ProcessPoolExecutor
+    import threading
+    e = ProcessPoolExecutor(2, initializer=ident, initargs=(threading.Lock(),))
+    for _ in range(2):
+        try:
+            e.submit(ident, 1).result(30)
+        except BaseException:
+            pass
+    e.shutdown(wait=True)
 def lc_broken_exit(rng):
     from loky import ProcessPoolExecutor
     e = ProcessPoolExecutor(2)
